@@ -34,6 +34,8 @@ contract(TB, 'TypeBlocks._cols_to_slice',
         'forall_in(0, len(indices), lambda j: nth(result, W, j, at(indices, j)))',
         'not nth(result, W, len(indices), s_start(result, W) + len(indices) * s_step(result))',
         's_step(result) == d or len(indices) == 1',
+        # an ascending run (or a single column) comes back as the plain slice [first, last + 1)
+        'implies(d == 1 or len(indices) == 1, is_none(result.step) and not is_none(result.start) and not is_none(result.stop) and result.start == at(indices, 0) and result.stop == at(indices, len(indices) - 1) + 1)',
     ])
 
 _POS = '(is_none(key.step) or key.step > 0)'
@@ -110,3 +112,97 @@ contract(CU, 'key_to_ascending_key',
         f'forall(lambda i, k: implies(nth(result, size, k, i), nth(key, size, cond({_POS}, k, cond(key.step == -1, s_start(key, size) - i, {_QQ} - k)), i)))',
     ],
     ensures_concrete=['result.step is None or result.step > 0', 'R(result, size) == sorted(set(R(key, size)))'])
+
+
+# ---- the same generator on ASCENDING input (every key with retain_key_order=False): the yielded (block, slice) targets are plain slices
+# [start, stop) inside their block, ascending by block and disjoint-ascending within a block -- the ordering the block-wise splice generators rely on
+_ORD = ('forall(lambda a, b: implies(0 <= a and a < b and b < len({ys}), at({ys}, a)[0] <= at({ys}, b)[0] and '
+        'implies(at({ys}, a)[0] == at({ys}, b)[0], at({ys}, a)[1].stop <= at({ys}, b)[1].start)))')
+_SHAPE = ('forall_in(0, len({ys}), lambda k: is_none(at({ys}, k)[1].step) and not is_none(at({ys}, k)[1].start) and not is_none(at({ys}, k)[1].stop) '
+          'and 0 <= at({ys}, k)[1].start and at({ys}, k)[1].start < at({ys}, k)[1].stop and 0 <= at({ys}, k)[0] and at({ys}, k)[0] + 1 < len(offs) and at({ys}, k)[1].stop <= at(offs, at({ys}, k)[0] + 1) - at(offs, at({ys}, k)[0]))')
+_LASTY = 'at(yields, len(yields) - 1)'
+contract(TB, 'TypeBlocks._indices_to_contiguous_pairs', key='TypeBlocks._indices_to_contiguous_pairs[ascending]',
+    props=['C03', 'C08'],
+    params=dict(indices='list[tuple[int,int]]'), order=['indices'],
+    is_generator=True, yield_sort='tuple[int,slice]',
+    ghost_params=dict(offs='list[int]'),       # prefix column offsets of the blocks: block b is offs[b+1] - offs[b] columns wide
+    requires=[
+        'forall_in(0, len(indices), lambda j: 0 <= at(indices, j)[0] and at(indices, j)[0] + 1 < len(offs) and 0 <= at(indices, j)[1] and at(indices, j)[1] < at(offs, at(indices, j)[0] + 1) - at(offs, at(indices, j)[0]))',
+        # lexicographically strictly ascending (block, column) pairs
+        'forall_in(0, len(indices) - 1, lambda j: at(indices, j)[0] < at(indices, j + 1)[0] or (at(indices, j)[0] == at(indices, j + 1)[0] and at(indices, j)[1] < at(indices, j + 1)[1]))',
+    ],
+    ghost_init=['cut = 0', 'yields = []'],
+    n_loops=1,
+    loops={0: dict(index='t', locals=dict(last='opt[tuple[int,int]]', bundle='list[int]', cut='int', yields='list[tuple[int,slice]]'),
+        ghost_mods=['cut', 'yields'],
+        invariant=[
+            '0 <= cut and cut <= t',
+            'is_none(last) == (t == 0)',
+            'implies(t == 0, cut == 0 and len(yields) == 0)',
+            'implies(t > 0, last == at(indices, t - 1))',
+            'implies(t > 0, len(bundle) == t - cut and len(bundle) >= 1)',
+            'implies(t > 0, forall_in(0, len(bundle), lambda j: at(bundle, j) == at(indices, cut + j)[1] and at(indices, cut + j)[0] == at(indices, t - 1)[0]))',
+            'implies(t > 0, forall_in(0, len(bundle), lambda j: at(bundle, j) == at(bundle, 0) + j))',
+            _ORD.format(ys='yields'), _SHAPE.format(ys='yields'),
+            # everything yielded so far lies before the open bundle
+            f'implies(t > 0 and len(yields) > 0, {_LASTY}[0] < at(indices, t - 1)[0] or ({_LASTY}[0] == at(indices, t - 1)[0] and {_LASTY}[1].stop <= at(bundle, 0)))',
+            f'implies(len(yields) > 0, cut > 0 and ({_LASTY}[0] < at(indices, cut - 1)[0] or ({_LASTY}[0] == at(indices, cut - 1)[0] and {_LASTY}[1].stop == at(indices, cut - 1)[1] + 1)))',
+        ])},
+    call_ghosts={'TypeBlocks._cols_to_slice': dict(d='1', W='at(offs, last[0] + 1) - at(offs, last[0])')},
+    at_yield=['cut + len(bundle) <= len(indices)'],
+    yield_update=['cut = cut + len(bundle)'],
+    at_exit=['cut == len(indices)', _ORD.format(ys='yields'), _SHAPE.format(ys='yields')],
+    # what callers may assume about the whole sequence of yields (each is proved above as an exit condition over the ghost list `yields`)
+    ensures=[_ORD.format(ys='result'), _SHAPE.format(ys='result')])
+
+
+# ---- the key translation used by every block-wise generator (retain_key_order=False): targets ascending by block, disjoint within a block -------
+_KSHAPE = ('forall_in(0, len({ys}), lambda k: 0 <= at({ys}, k)[0] and at({ys}, k)[0] < len(self._blocks) and is_none(at({ys}, k)[1].step) and not is_none(at({ys}, k)[1].start) and not is_none(at({ys}, k)[1].stop)'
+           ' and 0 <= at({ys}, k)[1].start and at({ys}, k)[1].start < at({ys}, k)[1].stop and at({ys}, k)[1].stop <= W(at(self._blocks, at({ys}, k)[0])))')
+contract(TB, 'TypeBlocks._all_block_slices',
+    props=['C03', 'C08'],
+    params=dict(self='TypeBlocks'), order=['self'],
+    is_generator=True, yield_sort='tuple[int,slice]',
+    requires=['Dir(self)'],
+    ghost_init=['yields = []'],
+    n_loops=1,
+    loops={0: dict(index='t', locals=dict(yields='list[tuple[int,slice]]'), ghost_mods=['yields'], invariant=[
+        'len(yields) == t',
+        'forall_in(0, len(yields), lambda k: at(yields, k)[0] == k and is_none(at(yields, k)[1].step) and at(yields, k)[1].start == 0 and at(yields, k)[1].stop == W(at(self._blocks, k)))',
+        # instance of Dir for the block about to be visited (quantifier-free: branch decisions use it)
+        'implies(t < len(self._blocks), at(self._blocks, t).ndim == 1 or at(self._blocks, t).ndim == 2)',
+    ])},
+    at_yield=[],
+    at_exit=['len(yields) == len(self._blocks)',
+             'forall_in(0, len(yields), lambda k: at(yields, k)[0] == k and is_none(at(yields, k)[1].step) and at(yields, k)[1].start == 0 and at(yields, k)[1].stop == W(at(self._blocks, k)))'],
+    ensures=['len(result) == len(self._blocks)',
+             'forall_in(0, len(result), lambda k: at(result, k)[0] == k and is_none(at(result, k)[1].step) and at(result, k)[1].start == 0 and at(result, k)[1].stop == W(at(self._blocks, k)))'])
+
+_KORD = _ORD
+contract(TB, 'TypeBlocks._key_to_block_slices', key='TypeBlocks._key_to_block_slices',
+    props=['C03', 'C04', 'C08'],
+    params=dict(self='TypeBlocks', retain_key_order='bool'), order=['self', 'key', 'retain_key_order'], defaults=dict(retain_key_order='True'),
+    # proved for: key None / a slice (any user slice) / a list of distinct in-range integers.  NOT covered by the proof (callers that pass them rely
+    # on the same statement as an assumption): a single integer (the one target is (block, column), not a slice) and Boolean arrays.
+    variants=[dict(key='opt[slice]'), dict(key='list[int]')],
+    partly_assumed='proved for None / slice / distinct in-range integer-list keys; ASSUMED for a single integer key and for Boolean-array keys, and the key preconditions are not checked at call sites that pass an untyped key',
+    is_generator=True, yield_sort='tuple[int,slice]',
+    requires=['Dir(self)', 'not retain_key_order'],
+    requires_variant={0: ['is_none(key) or is_none(key.step) or key.step != 0'],
+                      1: ['forall_in(0, len(key), lambda j: -self._shape[1] <= at(key, j) and at(key, j) < self._shape[1])',
+                          # distinct positions (labels are unique)
+                          'forall(lambda a, b: implies(0 <= a and a < b and b < len(key), cond(at(key, a) < 0, at(key, a) + self._shape[1], at(key, a)) != cond(at(key, b) < 0, at(key, b) + self._shape[1], at(key, b))))']},
+    call_alias={'TypeBlocks._indices_to_contiguous_pairs': 'TypeBlocks._indices_to_contiguous_pairs[ascending]'},
+    call_ghosts={'TypeBlocks._indices_to_contiguous_pairs[ascending]': dict(offs='self._offs')},
+    calls={
+        # ASSUMED builtin: sorted() of distinct integers in [0, size) is their strictly ascending arrangement (same length, same range)
+        'sorted': dict(params=dict(xs='list[int]'), order=['xs'], result='list[int]',
+                       requires=['forall_in(0, len(xs), lambda j: 0 <= at(xs, j) and at(xs, j) < self._shape[1])',
+                                 'forall(lambda a, b: implies(0 <= a and a < b and b < len(xs), at(xs, a) != at(xs, b)))'],
+                       ensures=['len(result) == len(xs)', 'forall_in(0, len(result), lambda j: 0 <= at(result, j) and at(result, j) < self._shape[1])',
+                                'forall_in(0, len(result) - 1, lambda j: at(result, j) < at(result, j + 1))']),
+    },
+    ghost_init=['yields = []'],
+    yield_from={'*': {'assert': [], 'update': ['yields = sub']}},
+    at_exit=[_KSHAPE.format(ys='yields'), _KORD.format(ys='yields')],
+    ensures=[_KSHAPE.format(ys='result'), _KORD.format(ys='result')])
